@@ -103,6 +103,7 @@ type writeRec struct {
 }
 
 type Exec struct {
+	inAtomic    int      // inside the model of a sync/atomic operation
 	curTags     []string // tags of the loop invariant being assumed
 	env         *Env
 	unit        *Unit
